@@ -116,6 +116,10 @@ where
                 made.push((s, hdr, msgs, sid));
             }
         }
+        // one more, larger, unrelated operation first: whatever an earlier large operation left behind is overwritten
+        let big = h.rng.bytes(80000);
+        let one = rand_msgs(h, 1);
+        let _ = sign::<CS>(h, &sk, &pk, Some(&big), Some(&one));
         for (s, hdr, msgs, sid) in &made {
             let v = verify::<CS>(h, &pk, s.bbsPlusSignature(), hdr.as_deref(), Some(msgs));
             h.expect(v.is_ok(), "C01.reverify_history", "a signature that verified no longer verifies after other operations on the same thread", &[*sid, h.last()]);
